@@ -55,7 +55,7 @@ pub mod rust_log_ref_finder
     pub fn find(code: &str, config: &Config) -> Vec<LogRefEntry>
     {
         lazy_static! {
-            static ref RUST_COMMENT_PATTERN: Regex = Regex::new(r"\/\/(.+)|\/\*(.+)\*\/").unwrap();
+            static ref RUST_COMMENT_PATTERN: Regex = Regex::new(r"\/\/(.+)|\/\*(.+?)\*\/").unwrap();
         }
 
         let mut result = Vec::new();
